@@ -24,6 +24,10 @@ BUILT = {
             "Both directions at every boundary: the limit's diagnostic is reported for the measured object iff n > L and for no other object, over 21 kinds of line (code, // comment, first/interior/last line of a block comment, "
             "last line with and without newline...), body shapes, positions and surrounding functions.",
             "Contexts are sampled; widths are ASCII visual columns.", "§4.3"),
+    "C08": ("generated reports (family members, stacked multi-diagnostic variants, lexical multi-highlight diagnostics, non-ASCII) with a well-formedness + differential (JSON vs humanized) oracle; exhaustive comparator laws",
+            "Every diagnostic is checked against the published catalogue and the file bounds, printed order must ascend, and the JSON report must describe the same files, verdicts and diagnostics in the same order as the humanized one "
+            "(in-process formatters and CLI). The Error comparator is checked for irreflexivity, asymmetry, transitivity and position-consistency over all pairs/triples of a 72-object domain.",
+            "The humanized report is parsed by the harness's own regular expressions (self-tested).", "§4.8"),
     "C09": ("exhaustive small-alphabet enumeration + Hypothesis lexeme soups against an independent alignment scanner",
             "Every token position is compared with the position recomputed from the raw text by a scanner that shares no code with the lexer; "
             "all strings up to a length bound over two reduced lexical alphabets are enumerated completely and longer lexeme soups are sampled. "
